@@ -588,6 +588,46 @@ func checkSeq(ops []cop, deep bool) (diff string, kf bool) {
 	if s := readAll("swapped+clone", sb.Clone(), ops, true, lenCh); s != "" {
 		return s, trig
 	}
+	// the same Swap pass on a commit that was serialised and decoded first (a replica applying a
+	// commit that still carries merges), block by block, then read again by a later reader
+	cmp := sameOps
+	if lenCh {
+		cmp = samePerOffset
+	}
+	rd := commit.NewReader()
+	for _, ch := range chunksOf(ops) {
+		src := commit.Commit{ID: 9000 + uint64(ch), Chunk: ch, Updates: []*commit.Buffer{b}}
+		w.Reset()
+		if _, err := src.WriteTo(&w); err != nil {
+			return "decoded-commit swap: WriteTo: " + err.Error(), trig
+		}
+		var dst commit.Commit
+		if _, err := dst.ReadFrom(bytes.NewReader(w.Bytes())); err != nil || len(dst.Updates) != 1 {
+			return fmt.Sprintf("decoded-commit swap: ReadFrom: %v (%d buffers)", err, len(dst.Updates)), trig
+		}
+		var inChunk []cop
+		for _, c := range ops {
+			if commit.Chunk(c.Off>>14) == ch {
+				inChunk = append(inChunk, c)
+			}
+		}
+		if s := swapPass(dst.Updates[0], inChunk); s != "" {
+			return fmt.Sprintf("decoded-commit(%d) swap: %s", ch, s), trig
+		}
+		var got []dop
+		var e string
+		rd.Range(dst.Updates[0], ch, func(r *commit.Reader) {
+			if e == "" {
+				got, e = decode(r, got)
+			}
+		})
+		if e != "" {
+			return fmt.Sprintf("decoded-commit(%d) swapped: %s", ch, e), trig
+		}
+		if s := cmp(got, expected(ops, true, int64(ch))); s != "" {
+			return fmt.Sprintf("decoded-commit(%d) swapped: %s", ch, s), trig
+		}
+	}
 	return "", false
 }
 
